@@ -4,7 +4,7 @@ Recipe (JSON):
   S        number of stages
   lb, ub, step   loop bounds (constants); "lb_dyn" / "ub_dyn" / "step_dyn": true passes that bound as an index function argument
            instead (executed with the recipe's value), ["add", k] computes it as argument + %c<k> (argument value: bound - k)
-  canon    run pipeline-canonicalize-for first (forced when lb != 0 or step != 1, as in the real pipeline)
+  canon    run pipeline-canonicalize-for first (mostly set when lb != 0 or step != 1, as in the real pipeline)
   nG       number of big global tensors (function arguments memref<128x4xi32>) G0..
   args     rows of the small whole-buffer function arguments a0.. (memref<rx4xi32>)
   l1       rows of the L1 allocations b0.. (memref<Rx4xi32, "L1">), allocated before the loop
@@ -402,6 +402,10 @@ def bounds(draw, S, max_trip=6, dyn=()):
         step = draw(st.sampled_from([2, 3, 1, 2] if "step" in dyn else [1, 1, 1, 2]))
     else:
         lb, step = draw(st.sampled_from(LBSTEP))
+        if draw(st.integers(0, 7)) == 0:
+            # a short (or empty) loop at a positive lower bound whose upper bound alone looks pipelinable (ub >= stages-1)
+            lb = draw(st.integers(S - 1, S + 3))
+            return lb, lb + draw(st.integers(0, max(0, S - 2))), 1
     if lb < 0 and draw(st.integers(0, 2)) > 0:
         # a negative lower bound with an upper bound that alone looks pipelinable (ub >= stages-1): i = lb .. -1, 0 .. ub-1
         return lb, draw(st.integers(S - 1, max(S - 1, max_trip - 2))), step
@@ -552,7 +556,10 @@ def loop_recipe(draw, tier="quick"):
         dsts = [o for o in pool if o[0] == "a"]
         if srcs and dsts:
             post.append(["copy", draw(st.sampled_from(srcs)), draw(st.sampled_from(dsts))])
-    canon = True if (lb, step) != (0, 1) else draw(st.booleans())
+    # lb != 0 or step != 1: mostly canonicalised first as in the real pipeline, sometimes handed to construct-pipeline as it is
+    canon = (draw(st.integers(0, 3)) > 0) if (lb, step) != (0, 1) else draw(st.booleans())
+    if lb > 0 and step == 1 and 0 <= ub - lb < S - 1 <= ub and not dyn:
+        canon = draw(st.booleans())
     rc = dict(S=S, lb=lb, ub=ub, step=step, ub_dyn=False, canon=canon, nG=nG, args=args, l1=l1, idx=idx, views=views,
               stages=stages, post=post)
     for w in dyn:
